@@ -70,6 +70,8 @@ pub fn alphabet(w: i32, h: i32) -> Vec<Op> {
         Op::Clear(0xff0000ff),
         Op::FillRect(1., 0., 2., 2., SrcSpec::Solid(GRN), Opts::default()),
         Op::PushLayer(0.5, BlendMode::SrcOver),
+        // a layer whose opacity rounds to zero (its pop composites nothing)
+        Op::PushLayer(0.001, BlendMode::SrcOver),
         Op::PopLayer,
         // sources positioned through the current transform (anything cached from it shows)
         Op::Fill(PathSpec::new(tri(0.25, hf - 0.25)), SrcSpec::Linear { stops: vec![Stop { pos: 0.0, color: 0xffff0000 }, Stop { pos: 1.0, color: 0xff0000ff }], spread: Spr::Pad, p: [0.5, 0.5, wf - 0.5, hf - 0.5] }, Opts::default()),
@@ -185,7 +187,11 @@ fn check_last(w: i32, h: i32, hist: &[Op]) -> Result<u64, Violation> {
     };
     if b_before != before {
         // the visible state could not be re-established: not a verdict about the last call
-        return Err(Violation::new("harness/state-not-reestablished", case, "rebuilding the visible state on a fresh target gave different buffers (an earlier transition must already have been reported)".to_string()));
+        // before the last call, the reused target's visible state (pixels, transform, clip stack,
+        // layers) is not the state its history establishes on a fresh target: an earlier call
+        // left a residue that the per-call comparison could not see (both sides made it)
+        let what = if b_before.xf != before.xf { format!("transform is {:?}, the history establishes {:?}", before.xf, b_before.xf) } else if b_before.clips != before.clips { "clip stacks differ".to_string() } else if b_before.layers != before.layers { "layer buffers differ".to_string() } else { "buffers differ".to_string() };
+        return Err(Violation::new("state/visible-state-is-not-what-the-history-establishes", case, format!("before the last call: {}", what)));
     }
     if b_after != after {
         let what = if b_after.base != after.base {
@@ -200,13 +206,17 @@ fn check_last(w: i32, h: i32, hist: &[Op]) -> Result<u64, Violation> {
         };
         return Err(Violation::new(format!("{}/differs-from-fresh-target", hist[n - 1].kind()), case, format!("last call gives different results on the reused and on a fresh target holding the same visible state: {}\nreused: {}\nfresh:  {}", what, super::common::hexs(&after.base), super::common::hexs(&b_after.base))));
     }
-    Ok(state_key(&after, cursor))
+    // the key also holds the transform the history established (the one a fresh target is given):
+    // two histories that reach the same buffers but with a different expected transform must not be
+    // merged, or a transform lost by an earlier call would be attributed to a history that never set it
+    let expect_xf: Vec<u32> = track(hist).xf.iter().map(|v| v.to_bits()).collect();
+    Ok(hash64(&(state_key(&after, cursor), expect_xf)))
 }
 
 fn explore(run: &Run, w: i32, h: i32, unmerged_depth: usize, merged_depth: usize) {
     let alpha = alphabet(w, h);
     let na = alpha.len();
-    run.bound(&format!("histories {}x{}", w, h), format!("alphabet of {} calls; all well-nested histories (at most 2 open pushes) of length <= {} without merging, then breadth-first to length {} merging states on (pixels of every buffer, transform, clip stack, layer stack, rasteriser-idle flag, hidden path cursor)", na, unmerged_depth, merged_depth));
+    run.bound(&format!("histories {}x{}", w, h), format!("alphabet of {} calls; all well-nested histories (at most 2 open pushes) of length <= {} without merging, then breadth-first to length {} merging states on (pixels of every buffer, transform, the transform the history established, clip stack, layer stack, rasteriser-idle flag, hidden path cursor)", na, unmerged_depth, merged_depth));
     // unmerged DFS, sharded by the first two ops
     run.par(na * na, |s, l| {
         fn rec(run: &Run, s: usize, l: &mut Local, w: i32, h: i32, alpha: &[Op], hist: &mut Vec<Op>, depth: usize) {
